@@ -20,10 +20,13 @@ def _run_one(args):
         mod = importlib.import_module(modname)
         base = Program()
         src = base.modules[module].source
-        if src.count(old) != 1:
-            return (name, 'skipped', 'anchor text occurs %d times' % src.count(old))
-        prog = Program(overrides={module: src.replace(old, new)})
-        rep = Report(prop)
+        pairs = old if isinstance(old, list) else [(old, new)]
+        for o, n in pairs:
+            if src.count(o) != 1:
+                return (name, 'skipped', 'anchor text occurs %d times' % src.count(o))
+            src = src.replace(o, n)
+        prog = Program(overrides={module: src})
+        rep = Report(prop, prog)
         try:
             mod.run(rep, prog, 'quick')
         except AnalysisError as e:
